@@ -31,7 +31,7 @@ func init() {
 		"Every error returned by NewStream/SendMsg/RecvMsg in runs with all network fault kinds, dial failures, server Stop/GracefulStop and size limits must carry a gRPC status (status.FromError ok); io.EOF excepted.",
 		"The A54 clause (reserved codes from pickers/config selectors/credentials surface as INTERNAL) is covered by the C23 harness policy runs.",
 		"status.FromError on every API error under fault injection"))
-	regProp("C53", we("tracking mem.BufferPool installed on both endpoints").doc(
+	regProp("C53we", we("tracking mem.BufferPool installed on both endpoints").doc(
 		"A tracking BufferPool (never reuses memory, poisons on Put, detects a second Put of the same buffer by identity) is installed in client and server: no buffer is returned twice, and none is returned while still referenced - poisoning turns use-after-free into payload mismatches caught by the wire byte ledger and the receive-payload oracle; faults: cancel, reset, cut at arbitrary byte, half-close, blackhole, Stop/GracefulStop. Buffers never returned are counted (probe) but not flagged: grpc-go drops unread receive buffers for the GC.",
 		"Only buffers that flow through the configured pool are tracked. The mem package API clauses (Ref/Slice/split/Reader) are checked in the primitives world.",
 		"tracking buffer pool: exactly-once Put, poison, leak check at teardown"))
